@@ -27,6 +27,10 @@ CLAIMS = {
   "The recursive-descent expression parser is under contract: Token.Precedence and BuildOp are proved equal to the documented operator table, and parseBinaryExpr and its eleven helpers are proved, for every token sequence, to build only binary nodes whose left operand binds at least as strongly and whose right operand binds strictly more strongly than the node's operator (ghost binding level, parentheses / calls / indexes / lists at the top level), to stop exactly in front of a weaker operator, and to parse BETWEEN bounds above the comparison level. Obligations are generated from the go/ssa form of the working tree on every run (defer, closures and the constant operator map included) and discharged by z3 / cvc5.",
   TRUST + "Covers the binding-strength / associativity half of the property. The String()/re-parse round trip, case folding and in-order token consumption are not covered (see evidence). The ghost level is maintained by ghost statements in the contract file.",
   "DESIGN.md section 5, C15"),
+ "C17": ("proof",
+  "errors.go is under contract: outputQueryAndErrPos is proved, for every query text, offset and padding, to render a window of the trimmed query that contains the offset and to place the caret under the byte at that offset of the original query (string theory with sub/at/cat/blen axioms; loop invariants over the padding loops), without any out-of-range slice; Error() of a bound SyntaxError/ExecuteError starts with that rendering; the constructors carry the given position; every SyntaxError of the expression parser carries -1, 0 or a token start (bounded-existential witness).",
+  TRUST + "strings.TrimSpace / TrimLeftFunc / fmt.Sprintf are modelled axiomatically (T-STD). Statement-level parser errors, checker and execution-time positions are not yet covered; token positions inside the query are the lexer's contract (C16).",
+  "DESIGN.md section 5, C17"),
  "C18": ("proof",
   "Planner tightness and scan confinement: each key-pinning atom yields exactly its documented scan type and literals, AND returns a region inside one operand's region, disjoint operands give EMPTY, Optimize() maps scan types to the matching plan kinds, and the row-mode scan plans are proved to read only keys of their region plus at most the key that ends it (MultiGetPlan: one Get per listed key; EmptyResultPlan: no storage call).",
   TRUST + "Cursor behaviour (Seek to first key >= p, strictly ascending snapshot) is A-STORE. The per-construct statements compose to the property on paper. Batch forms of the scans are not yet under contract.",
